@@ -268,6 +268,12 @@ def run_job(job):
         if "record" in out.aux: ep["rows"] = canon_compiled_record(cfg, out.aux["record"])
         ep["final"] = canon_gs(out, names)
         res["episodes"].append(ep)
+    if job.get("eps_out_of_range"):
+        # an episode index beyond the recorded range is clipped to the last episode (C09): the same steps execute, once each, with their own seq
+        del HOSTLOG[:]
+        gs = G.init(jax.random.PRNGKey(job.get("seed", 0)), starting_eps=E + 2, starting_step=p0)
+        out = roll(gs, max_steps=nrun); jax.block_until_ready(out.state)
+        with HOSTLOCK: res["calls_eps_oob"] = list(HOSTLOG)
     if job.get("paths"): res["paths"] = api_paths(job, G, names, N, cfg)
     return res
 
@@ -322,6 +328,20 @@ def api_paths(job, G, names, N, cfg):
             last = jax.tree_util.tree_map(lambda x: x[-1], full)
             d["rollout_full_last"] = canon_gs(last, names)
         out[key] = d
+    # params override: a partial plain-dict override re-used for two init() calls with different rng; the second call must equal an init() with a
+    # fresh copy of the same override (init is a pure function of its arguments), the override is what the steps see, the others are drawn from THIS rng
+    if cfg.get("rng_params"):
+        other = sorted(n for n in names if n != sup)[0] if len(names) > 1 else sup
+        def mk(): return {other: aw.Out(jnp.array([5], dtype=jnp.int32), jnp.array([0.0], dtype=jnp.float32))}
+        def par(gs): return {n: int(gs.params[n].a[0]) for n in names}
+        r1, r2 = jax.random.PRNGKey(job.get("seed", 0) + 1), jax.random.PRNGKey(job.get("seed", 0) + 2)
+        P = mk()
+        gsa = G.init(r1, params=P); gsb = G.init(r2, params=P); gsf = G.init(r2, params=mk())
+        d = dict(first=par(gsa), reused=par(gsb), fresh=par(gsf), other=other, keys_after=sorted(P))
+        ga, gf = gsb, gsf
+        for i in range(2): ga = G.run(ga); gf = G.run(gf)
+        d["run_reused"] = canon_gs(ga, names); d["run_fresh"] = canon_gs(gf, names)
+        out["params"] = d
     # vmap over a batch of (eps, step) pairs
     if job.get("vmap"):
         n = job["vmap"]["n"]; pairs = job["vmap"]["pairs"]
